@@ -236,3 +236,32 @@ let show_gevs (l : gev list) : string =
   let b = Buffer.create 64 in
   List.iteri (fun i g -> if i > 0 then Buffer.add_char b ' '; show_gev b g) l;
   Buffer.contents b
+
+(* ---- flattening ---- *)
+let inner_of (s : sexp) : iobs =
+  match head s with
+  | "coldi" -> ICold (List.map ev_of (args s))
+  | "hoti" -> IHot (narg (List.hd (args s)))
+  | h -> failwith ("bad inner " ^ h)
+
+let fstim_of (s : sexp) : fstim =
+  let a = args s in
+  match head s with
+  | "o" -> (match List.hd a with
+            | Atom "c" -> FOuter ODone
+            | List [Atom "e"; k] -> FOuter (OErr (zarg k))
+            | i -> FOuter (ONext (inner_of i)))
+  | "i" -> FInner (narg (List.nth a 0), ev_of (List.nth a 1))
+  | h -> failwith ("bad flatten stimulus " ^ h)
+
+let show_fouts (l : fout list) : string =
+  let b = Buffer.create 64 in
+  List.iteri (fun i o -> if i > 0 then Buffer.add_char b ' ';
+    match o with
+    | FItem (k, v) -> Buffer.add_string b ("(i " ^ string_of_int (int_of_nat k) ^ " "); show_val b v; Buffer.add_char b ')'
+    | FTerm e -> Buffer.add_string b "(t "; show_ev b e; Buffer.add_char b ')'
+    | FSubscribed k -> Buffer.add_string b ("(sub " ^ string_of_int (int_of_nat k) ^ ")")
+    | FInnerDone k -> Buffer.add_string b ("(done " ^ string_of_int (int_of_nat k) ^ ")")
+    | FStuck -> Buffer.add_string b "STUCK"
+    | FMark j -> Buffer.add_string b ("(m " ^ string_of_int (int_of_nat j) ^ ")")) l;
+  Buffer.contents b
